@@ -416,10 +416,13 @@ Definition extract_merge (fuel : nat) (e : env) (stmt : seg) : res graph :=
                              match get_children sc ["column_reference"] with
                              | [c0; c1] =>
                                  do sq <- extract_column_qualifier c1;
-                                 do tq <- extract_column_qualifier c0;
-                                 do tcol <- (match tq with
-                                             | Some t => do w <- nth_res (st_write g2) 0; Ok (Some (plain_col (fst t) (Some w)))
-                                             | None => Ok None end);
+                                 (* after fix F11: without an identified target the target column is not looked at *)
+                                 do tcol <- (match st_write g2 with
+                                             | w :: _ =>
+                                                 do tq <- extract_column_qualifier c0;
+                                                 Ok (match tq with Some t => Some (plain_col (fst t) (Some w)) | None => None end)
+                                             | [] => Ok None
+                                             end);
                                  match sq, tcol with
                                  | Some sc0, Some tc => add_column_lineage g2 (plain_col (fst sc0) direct) tc
                                  | _, _ => Ok g2
@@ -437,10 +440,14 @@ Definition extract_merge (fuel : nat) (e : env) (stmt : seg) : res graph :=
                        match get_child mi ["bracketed"] with
                        | Some b =>
                            do ins <- concat_res (map (fun cr =>
-                                       do q <- extract_column_qualifier cr;
-                                       match q with
-                                       | Some c => do w <- nth_res (st_write gg) 0; Ok [plain_col (fst c) (Some w)]
-                                       | None => Ok []
+                                       match st_write gg with
+                                       | w :: _ =>
+                                           do q <- extract_column_qualifier cr;
+                                           match q with
+                                           | Some c => Ok [plain_col (fst c) (Some w)]
+                                           | None => Ok []
+                                           end
+                                       | [] => Ok []
                                        end) (get_children b ["column_reference"]));
                            match get_child mi ["values_clause"] with
                            | Some vc =>
